@@ -9,15 +9,32 @@ Code modelled (one model step = one atomic access / one successful mutex acquire
   src/tbb/thread_data.h            context_list (mutex, epoch, push_front, remove), thread_data::propagate_task_group_state
   src/tbb/main.cpp                 the_context_state_propagation_epoch / the_context_state_propagation_mutex
 
-Two facts about the code are *parameters* (`Cfg`), regenerated from the source on every run (Generated/C04.lean):
+Three facts about the code are *parameters* (`Cfg`), regenerated from the source on every run (Generated/C04.lean):
   propHolds        the propagator holds the mutex that the binder's fall-back takes, for the whole walk
   copyNeverClears  the binder's copies of the parent's flag only ever store "cancelled" (never write 0 over a 1)
+  resetSeq         the stores `task_group_context_impl::reset` performs on the modelled fields of its own context, in
+                   program order (as coded: `[.can]` — it clears my_cancellation_requested and nothing else)
 
 State is function-based (`Nat → …`): every natural number is a context id / thread id; untouched contexts are in
-state `created`, untouched threads have an empty program.  Thread `t` owns context list `t`; `reg` (a parameter) is the
-registry `my_threads_list` in walk order (only threads in `reg` have a `thread_data`, i.e. may bind).
+state `created`, untouched threads have an empty program.  Thread `t` owns context list `t`.
+
+Dynamic registry (src/tbb/governor.cpp init_external_thread / auto_terminate, thread_dispatcher.cpp create_one_job / cleanup,
+cancellation_disseminator.h register_thread / unregister_thread, thread_data.h ~thread_data / context_list::orphan):
+`reg` (a parameter) lists every thread that ever has a `thread_data` during the run, in the order in which the propagator
+would meet them (`my_threads_list` is push_front: newest first); `act t` says whether `t`'s thread_data is in the list NOW.
+Threads of `reg` whose program starts with `register` are outside the registry initially.  `register` = thread_data
+construction (a new context_list: epoch 0, whatever the global epoch is) + push_front under my_threads_list_mutex; `exit` =
+remove under my_threads_list_mutex, then ~thread_data → context_list::orphan() under the list's own mutex.  The list of an
+exited thread lives on while it holds contexts (they can still be destroyed), but the propagator walks the lists of
+REGISTERED threads only: contexts in an orphaned list are no longer reached (ghost `oc`), and neither are contexts bound
+beneath them later.  The walk skips unregistered threads (`nextList`).
 Ghost fields (never read by the code paths, except `depth` used as fuel of the ancestor walk): `depth wins resets
-srcOf skip`.
+srcOf skipSt clk rst wst pst wasReg joined fresh oc`.  The stamps: `clk` is a ghost clock that ticks at every winning exchange of a cancel and at
+every store of 0 to a cancellation flag by `reset`; `wst a` = clock value of the latest winning exchange on `a`, `rst x` =
+clock value of the latest reset of `x`, `pst n` = stamp (`wst` of its source) of propagation number `n`, `skipSt a` = stamp
+of the winning cancel of `a` that returned at the hint test.
+`reset` is performed even when it races with other operations on the context's subtree (the code does perform it); such a
+call violates the documented precondition of `reset` and is flagged in `misuse` (`resetOk`).
 -/
 import TbbVerif.Core.Sched
 import TbbVerif.Core.Proto
@@ -32,9 +49,16 @@ theorem upd_other {α : Type} (f : Nat → α) (k : Nat) (v : α) (i : Nat) (h :
 theorem upd_apply {α : Type} (f : Nat → α) (k : Nat) (v : α) (i : Nat) :
     upd f k v i = if i = k then v else f i := rfl
 
+/-- the modelled fields `reset` may store 0 to -/
+inductive RF where
+  | can      -- my_cancellation_requested
+  | mhc      -- my_may_have_children
+  deriving Repr, DecidableEq
+
 structure Cfg where
   propHolds : Bool
   copyNeverClears : Bool
+  resetSeq : List RF
   deriving Repr, DecidableEq
 
 /-- `task_group_context::state` -/
@@ -47,6 +71,8 @@ inductive Op where
   | bind (x : Nat) (p : Option Nat)   -- p = context of the task the binding thread is running (none: arena default ctx)
   | destroy (x : Nat)
   | reset (x : Nat)
+  | register                          -- the calling thread creates its thread_data and enters the registry
+  | exit                              -- the calling thread leaves the registry and orphans its context list
   deriving Repr, DecidableEq
 
 /-- Program counters: the constructor names the atomic access the thread performs next. -/
@@ -94,7 +120,14 @@ inductive Pc where
   | dUnlock (x : Nat)
   | dDead (x : Nat)                         -- store state := dead
   -- reset(x)
-  | rStore (x : Nat)                        -- store x.cancel := 0
+  | rSeq (x : Nat) (l : List RF)            -- the remaining stores of reset(x); the head is performed next
+  -- register / exit of the calling thread
+  | gLock                                   -- lock my_threads_list_mutex + push_front(thread_data)
+  | gUnlock
+  | xLock                                   -- lock my_threads_list_mutex + remove(thread_data)
+  | xUnlock
+  | xOrphL                                  -- context_list::orphan(): lock the own list's mutex, orphaned := true
+  | xOrphU                                  -- unlock (an empty list is destroyed)
   deriving Repr, DecidableEq
 
 structure St where
@@ -117,7 +150,18 @@ structure St where
   regMx : Option Nat := none                   -- my_threads_list_mutex holder
   propMx : Option Nat := none                  -- the_context_state_propagation_mutex holder
   srcOf : Nat → Nat := fun _ => 0              -- ghost: source of propagation number n (n ≥ 1)
-  skip : Nat → Bool := fun _ => false          -- ghost: a winning cancel of x returned at the hint test
+  skipSt : Nat → Nat := fun _ => 0             -- ghost: stamp of the winning cancel of x that returned at the hint test (0: none)
+  clk : Nat := 0                               -- ghost clock: ticks at every winning exchange and at every reset
+  rst : Nat → Nat := fun _ => 0                -- ghost: clock value of the latest reset of x (0: never)
+  wst : Nat → Nat := fun _ => 0                -- ghost: clock value of the latest winning exchange on x (0: never)
+  pst : Nat → Nat := fun _ => 0                -- ghost: stamp of propagation number n = wst of its source at the epoch increment
+  -- registry membership
+  act : Nat → Bool := fun _ => false           -- the thread's thread_data is in my_threads_list
+  orph : Nat → Bool := fun _ => false          -- context_list::orphaned
+  wasReg : Nat → Bool := fun _ => false        -- ghost: the thread has (had) a thread_data
+  joined : Nat → Nat := fun _ => 0             -- ghost: global epoch when the thread registered
+  fresh : Nat → Bool := fun _ => false         -- ghost: registered after the start and not yet synced by a propagation
+  oc : Nat → Bool := fun _ => false            -- ghost: the context was in the list of a thread when that thread left the registry
   -- threads
   pc : Nat → Pc := fun _ => .idle
   prog : Nat → List Op := fun _ => []
@@ -139,8 +183,16 @@ def chainUp (par : Nat → Option Nat) (src : Nat) : Nat → Nat → Option (Lis
 /-- pc after the walk of all lists: release the locks in reverse order of acquisition -/
 def afterLists (cfg : Cfg) (src : Nat) : Pc := if cfg.propHolds then .cUnlockProp src else .cUnlockReg src
 
-def nextList (cfg : Cfg) (reg : List Nat) (src i : Nat) : Pc :=
-  if i < reg.length then .cLockList src i else afterLists cfg src
+/-- index (counted from `j`) of the first registered thread in `l` -/
+def nextActFrom (act : Nat → Bool) : List Nat → Nat → Option Nat
+  | [], _ => none
+  | L :: rest, j => if act L then some j else nextActFrom act rest (j + 1)
+
+/-- the next list of the walk: the propagator iterates over my_threads_list, i.e. over the registered threads -/
+def nextList (cfg : Cfg) (reg : List Nat) (act : Nat → Bool) (src i : Nat) : Pc :=
+  match nextActFrom act (reg.drop i) i with
+  | some j => .cLockList src j
+  | none => afterLists cfg src
 
 /-- the parent a thread's pc refers to while it is inside `bind_to` (keeps the parent alive) -/
 def Pc.bindParent : Pc → Option Nat
@@ -178,19 +230,52 @@ def badOp (s : St) (t : Nat) (rest : List Op) : St :=
   { s with prog := upd s.prog t rest, misuse := upd s.misuse t true }
 
 def bindOk (reg : List Nat) (s : St) (t x : Nat) (p : Option Nat) : Bool :=
-  reg.contains t && s.cst x != .dead && !s.dying x &&
+  reg.contains t && s.act t && s.cst x != .dead && !s.dying x &&
   (match p with
    | none => true
    | some q => (s.cst q == .bound || s.cst q == .isolated) && !s.dying q && q != x)
 
-/-- Start the next operation of thread `t` (no shared access: only sets the pc).  Calls that violate the API's
-preconditions are dropped and flagged. -/
-def begin (reg : List Nat) (s : St) (t : Nat) : St :=
+/-- the contexts an in-flight operation works on -/
+def Pc.subjects : Pc → List Nat
+  | .idle => []
+  | .cLoad x | .cXchg x | .cHint x | .cLockReg x | .cLockProp x | .cRecheck x | .cEpoch x | .cLockList x _
+  | .cLoad1 x _ _ _ | .cLoad2 x _ _ _ | .cPaint x _ _ _ _ | .cReadG x _ | .cSync x _ _ | .cUnlockList x _
+  | .cUnlockProp x | .cUnlockReg x => [x]
+  | .bLoadSt x p | .bCas x p => x :: p.toList
+  | .bWait x | .bIso x | .bPub x => [x]
+  | .bHintL x p | .bHintS x p | .bSnap x p | .bSpecL x p _ | .bSpecS x p _ _ | .bRegL x p _ | .bRegU x p _
+  | .bLoadG x p _ | .bFbLock x p | .bFbL x p | .bFbS x p _ | .bFbU x p | .bRootL x p | .bRootS x p _ => [x, p]
+  | .dLock x | .dUnlock x | .dDead x => [x]
+  | .rSeq x _ => [x]
+  | .gLock | .gUnlock | .xLock | .xUnlock | .xOrphL | .xOrphU => []
+
+/-- `y` is `x` or is bound (directly or transitively) beneath `x` -/
+def inSubtree (s : St) (x y : Nat) : Bool := y == x || (chainUp s.par x (s.depth y) y).isSome
+
+/-- The documented precondition of `task_group_context::reset` ("not thread safe; must be called only when the tasks of
+the group and of its subordinate groups have completed"): no operation of another registered thread on the context or on a
+context bound beneath it is in flight.  (Cancellations of proper ancestors may be in flight: `task_group::wait` resets its
+context while an enclosing group may be cancelled by anybody.) -/
+def resetOk (reg : List Nat) (s : St) (t x : Nat) : Bool :=
+  reg.all (fun u => u == t || (s.pc u).subjects.all (fun y => !inSubtree s x y))
+
+/-- record a violation of an API precondition by `t` when `bad` -/
+def noteMisuse (s : St) (t : Nat) (bad : Bool) : St := { s with misuse := upd s.misuse t (s.misuse t || bad) }
+
+/-- Start the next operation of thread `t` (no shared access: only sets the pc).  Calls on dead contexts and binds that
+violate the API's preconditions are dropped and flagged; a `reset` that races with operations on its subtree is performed
+(as the code does) and flagged. -/
+def begin (cfg : Cfg) (reg : List Nat) (s : St) (t : Nat) : St :=
   match s.prog t with
   | [] => s
   | .cancel x :: rest => if s.cst x == .dead || s.dying x then badOp s t rest else setPc (popOp s t rest) t (.cLoad x)
-  | .reset x :: rest => if s.cst x == .dead || s.dying x then badOp s t rest else setPc (popOp s t rest) t (.rStore x)
+  | .reset x :: rest =>
+    if s.cst x == .dead || s.dying x then badOp s t rest
+    else setPc (popOp (noteMisuse s t (!resetOk reg s t x)) t rest) t (.rSeq x cfg.resetSeq)
   | .bind x p :: rest => if bindOk reg s t x p then setPc (popOp s t rest) t (.bLoadSt x p) else badOp s t rest
+  | .register :: rest =>
+    if reg.contains t && !s.act t && !s.wasReg t then setPc (popOp s t rest) t .gLock else badOp s t rest
+  | .exit :: rest => if s.act t then setPc (popOp s t rest) t .xLock else badOp s t rest
   | .destroy x :: rest =>
     if destroyOk reg s x then
       if s.dying x then badOp s t rest
@@ -210,10 +295,11 @@ def execCancel (cfg : Cfg) (reg : List Nat) (s : St) (t : Nat) : St :=
   | .cLoad src => if s.can src then finishCancel s t false else setPc s t (.cXchg src)
   | .cXchg src =>
     if s.can src then finishCancel s t false
-    else setPc { s with can := upd s.can src true, wins := upd s.wins src (s.wins src + 1) } t (.cHint src)
+    else setPc { s with can := upd s.can src true, wins := upd s.wins src (s.wins src + 1),
+                        clk := s.clk + 1, wst := upd s.wst src (s.clk + 1) } t (.cHint src)
   | .cHint src =>
     if s.mhc src then setPc s t (.cLockReg src)
-    else finishCancel { s with skip := upd s.skip src true } t true
+    else finishCancel { s with skipSt := upd s.skipSt src (s.wst src) } t true
   | .cLockReg src =>
     match s.regMx with
     | some _ => s
@@ -224,7 +310,8 @@ def execCancel (cfg : Cfg) (reg : List Nat) (s : St) (t : Nat) : St :=
     | none => setPc { s with propMx := some t } t (.cRecheck src)
   | .cRecheck src => if s.can src then setPc s t (.cEpoch src) else setPc s t (afterLists cfg src)
   | .cEpoch src =>
-    setPc { s with G := s.G + 1, srcOf := upd s.srcOf (s.G + 1) src } t (nextList cfg reg src 0)
+    setPc { s with G := s.G + 1, srcOf := upd s.srcOf (s.G + 1) src, pst := upd s.pst (s.G + 1) (s.wst src) } t
+      (nextList cfg reg s.act src 0)
   | .cLockList src i =>
     match reg[i]? with
     | none => setPc s t (afterLists cfg src)          -- unreachable (nextList checks the bound)
@@ -248,11 +335,11 @@ def execCancel (cfg : Cfg) (reg : List Nat) (s : St) (t : Nat) : St :=
   | .cSync src i g =>
     match reg[i]? with
     | none => setPc s t (afterLists cfg src)
-    | some L => setPc { s with epoch := upd s.epoch L g } t (.cUnlockList src i)
+    | some L => setPc { s with epoch := upd s.epoch L g, fresh := upd s.fresh L false } t (.cUnlockList src i)
   | .cUnlockList src i =>
     match reg[i]? with
     | none => setPc s t (afterLists cfg src)
-    | some L => setPc { s with lmx := upd s.lmx L none } t (nextList cfg reg src (i + 1))
+    | some L => setPc { s with lmx := upd s.lmx L none } t (nextList cfg reg s.act src (i + 1))
   | .cUnlockProp src => setPc { s with propMx := none } t (.cUnlockReg src)
   | .cUnlockReg _ => finishCancel { s with regMx := none } t true
   | _ => s
@@ -313,6 +400,15 @@ def execBind (cfg : Cfg) (s : St) (t : Nat) : St :=
   | .bPub x => setPc { s with cst := upd s.cst x .bound } t (.bWait x)
   | _ => s
 
+/-- one store of `reset(x)`: the cancellation flag (ticks the ghost clock and stamps the reset), or the hint -/
+def applyReset (s : St) (x : Nat) : RF → St
+  | .can => { s with can := upd s.can x false, resets := upd s.resets x (s.resets x + 1),
+                     clk := s.clk + 1, rst := upd s.rst x (s.clk + 1) }
+  | .mhc => { s with mhc := upd s.mhc x false }
+
+/-- ghost: mark the contexts of a list whose owner leaves the registry -/
+def orphanMark (oc : Nat → Bool) (l : List Nat) : Nat → Bool := fun z => oc z || l.contains z
+
 def execOther (s : St) (t : Nat) : St :=
   match s.pc t with
   | .dLock x =>
@@ -327,7 +423,29 @@ def execOther (s : St) (t : Nat) : St :=
     | none => setPc s t (.dDead x)
     | some L => setPc { s with lmx := upd s.lmx L none, lst := upd s.lst x none } t (.dDead x)
   | .dDead x => finishOp { s with cst := upd s.cst x .dead } t
-  | .rStore x => finishOp { s with can := upd s.can x false, resets := upd s.resets x (s.resets x + 1) } t
+  | .gLock =>
+    match s.regMx with
+    | some _ => s
+    | none => setPc { s with regMx := some t, act := upd s.act t true, wasReg := upd s.wasReg t true,
+                             joined := upd s.joined t s.G, fresh := upd s.fresh t true } t .gUnlock
+  | .gUnlock => finishOp { s with regMx := none } t
+  | .xLock =>
+    match s.regMx with
+    | some _ => s
+    | none => setPc { s with regMx := some t, act := upd s.act t false,
+                             oc := orphanMark s.oc (s.items t) } t .xUnlock
+  | .xUnlock => setPc { s with regMx := none } t .xOrphL
+  | .xOrphL =>
+    match s.lmx t with
+    | some _ => s
+    | none => setPc { s with lmx := upd s.lmx t (some t), orph := upd s.orph t true } t .xOrphU
+  | .xOrphU => finishOp { s with lmx := upd s.lmx t none } t
+  | .rSeq x l =>
+    match l with
+    | [] => finishOp s t
+    | f :: rest =>
+      let s' : St := applyReset s x f
+      if rest.isEmpty then finishOp s' t else setPc s' t (.rSeq x rest)
   | _ => s
 
 /-- which family a pc belongs to -/
@@ -350,14 +468,20 @@ def exec (cfg : Cfg) (reg : List Nat) (s : St) (t : Nat) : St :=
 
 /-- One step of thread `t`: if it is between operations it starts the next one, then it performs one access. -/
 def step (cfg : Cfg) (reg : List Nat) (s : St) (t : Nat) : St :=
-  exec cfg reg (if s.pc t = .idle then begin reg s t else s) t
+  exec cfg reg (if s.pc t = .idle then begin cfg reg s t else s) t
+
+/-- does the program start with `register` (a thread that creates its thread_data during the run) ? -/
+def startsLate : List Op → Bool
+  | .register :: _ => true
+  | _ => false
+
+def init (reg : List Nat) (prog : Nat → List Op) : St :=
+  { prog := prog, act := fun t => reg.contains t && !startsLate (prog t), wasReg := fun t => reg.contains t && !startsLate (prog t) }
 
 /-- `CtxTree`: the interleaving system for a registry and per-thread programs, from the initial state in which no
 context has been used yet. -/
-def init (prog : Nat → List Op) : St := { prog := prog }
-
 def CtxTree (cfg : Cfg) (reg : List Nat) (prog : Nat → List Op) : Sys St :=
-  { init := init prog, step := step cfg reg }
+  { init := init reg prog, step := step cfg reg }
 
 /-- no cancel / bind / destroy / reset in flight -/
 def St.quiescentOn (s : St) (ts : List Nat) : Bool := ts.all (fun t => s.pc t == .idle)
@@ -413,20 +537,38 @@ def evOf (_cfg : Cfg) (reg : List Nat) (s : St) (t : Nat) : String :=
   | .dLock x => match s.lst x with | some L => lockEv (s.lmx L) s!"lm{L}" | none => "none"
   | .dUnlock x => match s.lst x with | some L => s!"unlock lm{L}" | none => "none"
   | .dDead x => s!"store st{x} 4"
-  | .rStore x => s!"store can{x} 0"
+  | .gLock => lockEv s.regMx "regmx"
+  | .gUnlock => "unlock regmx"
+  | .xLock => lockEv s.regMx "regmx"
+  | .xUnlock => "unlock regmx"
+  | .xOrphL => lockEv (s.lmx t) s!"lm{t}"
+  | .xOrphU => s!"unlock lm{t}"
+  | .rSeq x l => match l with | .can :: _ => s!"store can{x} 0" | .mhc :: _ => s!"store mhc{x} 0" | [] => "none"
 
 structure DrvSt where
-  cfg : Cfg := ⟨false, false⟩
+  cfg : Cfg := ⟨false, false, [.can]⟩
   reg : List Nat := []
   st : St := {}
+  started : Bool := false
+
+/-- the initial registry membership is fixed when the first step is taken (all `prog` lines have been read) -/
+def DrvSt.start (d : DrvSt) : DrvSt :=
+  if d.started then d else { d with started := true, st := { d.st with act := (init d.reg d.st.prog).act, wasReg := (init d.reg d.st.prog).wasReg } }
 
 def parseOp : List String → Option Op
   | ["cancel", x] => x.toNat?.map Op.cancel
   | ["reset", x] => x.toNat?.map Op.reset
   | ["destroy", x] => x.toNat?.map Op.destroy
+  | ["register"] => some Op.register
+  | ["exit"] => some Op.exit
   | ["bind", x, "-"] => x.toNat?.map (Op.bind · none)
   | ["bind", x, p] => do let x ← x.toNat?; let p ← p.toNat?; pure (Op.bind x (some p))
   | _ => none
+
+/-- the stores of `reset` as a word over c (cancellation flag) and m (may_have_children); "-" = none -/
+def parseResetSeq (w : String) : Option (List RF) :=
+  if w == "-" then some [] else
+  w.toList.mapM (fun c => if c == 'c' then some RF.can else if c == 'm' then some RF.mhc else none)
 
 /-- split a word list at ";" -/
 def splitOps (ws : List String) : List (List String) :=
@@ -435,14 +577,18 @@ def splitOps (ws : List String) : List (List String) :=
   ((if cur.isEmpty then acc else cur.reverse :: acc).reverse).filter (fun l => !l.isEmpty)
 
 /-- Line protocol:
-  `cfg <propHolds 0|1> <copyNeverClears 0|1>`   `reg t0 t1 …`   `prog t op ; op ; …` (ops: cancel x | bind x p|- | destroy x | reset x)
+  `cfg <propHolds 0|1> <copyNeverClears 0|1> [<reset stores: word over c m, or ->]`   `reg t0 t1 …`   `prog t op ; op ; …` (ops: cancel x | bind x p|- | destroy x | reset x)
   `s t`     one step of thread t → `<event> | <pc idle?> <ops left>`
   `ctx x`   → `st can mhc par lst`      `res t` → results of t's cancel calls, oldest first
+  `thr t`   → `registered-now orphaned`
   `quiet t0 t1 …` → 1 iff all listed threads are idle with empty programs -/
 def drvStep (d : DrvSt) (ws : List String) : DrvSt × String :=
   match ws with
   | ["reset"] => ({}, "ok")
-  | ["cfg", a, b] => ({ d with cfg := ⟨a == "1", b == "1"⟩ }, "ok")
+  | ["cfg", a, b] => ({ d with cfg := ⟨a == "1", b == "1", [.can]⟩ }, "ok")
+  | ["cfg", a, b, r] => match parseResetSeq r with
+    | some l => ({ d with cfg := ⟨a == "1", b == "1", l⟩ }, "ok")
+    | none => (d, "bad-op")
   | "reg" :: ts => match Proto.nats? ts with
     | some l => ({ d with reg := l }, "ok")
     | none => (d, "bad-op")
@@ -452,7 +598,8 @@ def drvStep (d : DrvSt) (ws : List String) : DrvSt × String :=
   | ["s", t] => match t.toNat? with
     | none => (d, "bad-op")
     | some t =>
-      let s1 := if d.st.pc t = .idle then begin d.reg d.st t else d.st
+      let d := d.start
+      let s1 := if d.st.pc t = .idle then begin d.cfg d.reg d.st t else d.st
       let ev := evOf d.cfg d.reg s1 t
       let s2 := exec d.cfg d.reg s1 t
       ({ d with st := s2 }, s!"{ev} | {if s2.pc t = .idle then 1 else 0} {(s2.prog t).length} {b2n (s2.misuse t)}")
@@ -462,6 +609,9 @@ def drvStep (d : DrvSt) (ws : List String) : DrvSt × String :=
       let s := d.st
       let o (v : Option Nat) : String := match v with | some n => toString n | none => "-"
       (d, s!"{(s.cst x).enc} {b2n (s.can x)} {b2n (s.mhc x)} {o (s.par x)} {o (s.lst x)}")
+  | ["thr", t] => match t.toNat? with
+    | none => (d, "bad-op")
+    | some t => (d, s!"{b2n (d.start.st.act t)} {b2n (d.st.orph t)}")
   | ["res", t] => match t.toNat? with
     | none => (d, "bad-op")
     | some t => (d, " ".intercalate ((d.st.res t).reverse.map (fun b => toString (b2n b))))
